@@ -1,4 +1,5 @@
 import CandidModel.Proofs.Wire
+import CandidModel.Proofs.Annotate
 /-
   C10 — Untyped values survive annotate, encode and decode at their type.
   `Wire.annotate` mirrors `IDLValue::annotate_type`.  Theorems: the three allowances of the property
@@ -49,5 +50,31 @@ theorem annotate_unknown_tag (fp : Bool) (env : Env) (fuel : Nat) (v : Val) (i :
     annotate fp env (fuel + 1) (.variant (.id 7) v i) (.variant (.cons (.id 8) (.prim .nat) .nil)) = .err .other := by
   unfold annotate
   simp [Fields.toList, Label.getId]
+
+/-- **What annotation returns is a canonical value of the type**: labels and variant index are the type's, numbers
+are within their width, byte vectors are vectors of `nat8` — for every environment whose variants have fewer than
+`2^64` alternatives, every type over it, every value the Rust representation can hold (`wfVal`). -/
+theorem annotated_value_is_canonical (env : Env) (hse : SmallEnv env) (fuel : Nat) (v : Val) (t : Ty) (v' : Val)
+    (hw : wfVal v = true) (hst : smallTy t = true) (h : annotate true env fuel v t = .ok v') :
+    canon env (bound env fuel) (unblob v') t = true :=
+  annotate_canon env hse fuel v t v' hw hst h
+
+/-- **Annotate, encode, decode**: the annotated value is always written by the encoder, and from whatever the
+encoder writes the specification's reader at the same type returns exactly the annotated value and leaves exactly
+what followed. -/
+theorem annotate_encode_decode_returns_the_value (env : Env) (hse : SmallEnv env) (fuel : Nat) (v : Val) (t : Ty)
+    (v' : Val) (hw : wfVal v = true) (hst : smallTy t = true) (h : annotate true env fuel v t = .ok v') :
+    (∃ n bs, serVal n v' = .ok bs) ∧
+      ∀ n bs r, serVal n v' = .ok bs → decVal env (bound env fuel) t (bs ++ r) = .ok (unblob v', r) :=
+  annotate_encode_decode env hse fuel v t v' hw hst h
+
+/-- the hypotheses are satisfiable: a recursive record with an option and a variant, given out of order and
+with a `nat` where an `int` is expected -/
+example :
+    let env : Env := [("T", .record (.cons (.id 1) (.prim .int) (.cons (.id 7) (.opt (.var "T")) .nil)))]
+    let v : Val := .record [(.id 7, .opt (.record [(.id 1, .nat 5)])), (.id 1, .nat 3)]
+    (match annotate true env 20 v (.var "T") with
+     | .ok (.record [(.id 1, .int 3), (.id 7, .opt (.record [(.id 1, .int 5), (.id 7, .none)]))]) => true
+     | _ => false) = true := by decide
 
 end Candid.Props.C10
